@@ -86,6 +86,7 @@ def run_shard(spec, res):
             svc.fresh()
             names = Names(rng)
             gen = HistoryGen(rng, names, WEIGHTS)
+            gen.dup_list = True
             fp = FailPlace(rng, names)
             mon = monitors.C12Monitor(pp, pu)
 
